@@ -566,10 +566,27 @@ def _iterative(name, exact_power, monotone):
                 orig()
                 costs.append(float(s.get_cost()))
             s._step = stepped
+        # stream counts and powers given as the CALLER's arrays (every second case): they are the caller's - not changed by the solver,
+        # and free to be reused afterwards without changing the solution held by the solver
+        ns_arg, P_arg = ns, P
+        if case["seed"] % 2:
+            ns_arg = np.array([ns] * 3, dtype=[int, np.int32, np.int64][case["seed"] % 3])
+        if not np.isscalar(P):
+            P_arg = np.array(P, dtype=float)          # the caller's own array (P stays the reference for the checks below)
+        ns_keep = np.array(ns_arg, copy=True) if isinstance(ns_arg, np.ndarray) else None
+        P_keep = np.array(P_arg, copy=True) if isinstance(P_arg, np.ndarray) else None
         try:
-            s.solve(ns, P)
+            s.solve(ns_arg, P_arg)
         except Exception as e:
             return {"solve did not complete": repr(e)[:200], "Ns": ns, "init": init}
+        if ns_keep is not None and not np.array_equal(ns_keep, ns_arg):
+            return {"solve changed the caller's stream-count array": [ns_keep.tolist(), np.asarray(ns_arg).tolist()], "init": init}
+        if P_keep is not None and not np.array_equal(P_keep, P_arg):
+            return {"solve changed the caller's power array": [P_keep.tolist(), np.asarray(P_arg).tolist()], "init": init}
+        if ns_keep is not None:
+            ns_arg[:] = 7            # the caller reuses its arrays
+        if P_keep is not None:
+            P_arg[:] = 1e-3
         bad = _solver_checks(s, ch, 3, ns, P, exact_power=exact_power)
         if bad:
             bad.update({"Ns": ns, "init": init})
